@@ -13,7 +13,7 @@ import (
 	"github.com/Comcast/sheens/interpreters/ecmascript"
 	"github.com/Comcast/sheens/match"
 	"pgregory.net/rapid"
-	"verif/internal/ev"
+	"verif/lib/ev"
 )
 
 // ---------------------------------------------------------------- C11
